@@ -112,9 +112,12 @@ struct Builder<S: Storage> {
     optimizer: Optimizer,
     egraph: egg::EGraph<Expr, TypeSchemaAnalysis>,
     root: Id,
-    /// For scans on views, we prebuild their executors and store them here.
-    /// Multiple scans on the same view will share the same executor.
-    views: HashMap<TableRefId, StreamSubscriber>,
+    /// The queries of the views the plan scans. Every scan of a view gets an executor of its own:
+    /// two scans sharing one (a bounded broadcast channel per subscriber) deadlock as soon as one
+    /// consumer waits for the other — the build side of a hash join is read to its end before the
+    /// probe side is touched, so `select .. from v x join v y ..` hung once `v` had more chunks
+    /// than the channels hold.
+    views: HashMap<TableRefId, RecExpr>,
     metrics: Metrics,
 }
 
@@ -126,7 +129,7 @@ impl<S: Storage> Builder<S> {
         });
         let root = egraph.add_expr(plan);
 
-        // recursively build for all views
+        // the queries of all views scanned by the plan
         let mut views = HashMap::new();
         for node in plan.as_ref() {
             if let Expr::Table(tid) = node
@@ -135,9 +138,7 @@ impl<S: Storage> Builder<S> {
                 && let Some(table) = optimizer.catalog().get_table(tid)
                 && let Some(query) = table.query()
             {
-                let builder = Self::new(optimizer.clone(), storage.clone(), query);
-                let subscriber = builder.build_subscriber();
-                views.insert(*tid, subscriber);
+                views.insert(*tid, query.clone());
             }
         }
 
@@ -210,10 +211,6 @@ impl<S: Storage> Builder<S> {
         self.build_id(self.root)
     }
 
-    /// Builds the executor and returns its subscriber.
-    fn build_subscriber(mut self) -> StreamSubscriber {
-        self.build_id_subscriber(self.root)
-    }
 
     /// Builds the executor for the given id.
     fn build_id(&mut self, id: Id) -> BoxedExecutor {
@@ -250,7 +247,7 @@ impl<S: Storage> Builder<S> {
                     }
                 };
 
-                if let Some(subscriber) = self.views.get(&table_id) {
+                if let Some(query) = self.views.get(&table_id) {
                     // scan a view
                     assert!(
                         filter.is_none(),
@@ -268,7 +265,9 @@ impl<S: Storage> Builder<S> {
                         .collect();
                     projs.add(List(lists));
 
-                    ProjectionExecutor { projs }.execute(subscriber.subscribe())
+                    let view =
+                        Self::new(self.optimizer.clone(), self.storage.clone(), query).build();
+                    ProjectionExecutor { projs }.execute(view)
                 } else if table_id.schema_id == RootCatalog::SYSTEM_SCHEMA_ID {
                     SystemTableScan {
                         catalog: self.catalog().clone(),
